@@ -249,6 +249,9 @@ def run(tier):
     # inside a word of a plain scalar '#' is content: the comment test is reached from a content character only across a blank or break
     from . import plainword
     rep.floor("plain-word paths", plainword.check(rep, F), 20)
+    # an indented `---` / `...` inside a multi-line plain or quoted scalar is text: the marker test sits where the column is 0
+    from . import markers
+    rep.floor("document marker tests in the flow/plain scalar scanners", markers.check(rep, F, only={SCANNER + "::scan_plain_scalar", SCANNER + "::scan_flow_scalar"}), 2)
     rep.extra["escape_table"] = {("\\" + (chr(k) if k > 32 else "x%02x" % k)): "U+%04X" % v for k, v in sorted(named.items())}
     rep.extra["hex_lengths"] = {"\\" + chr(k): v for k, v in sorted(hexlen.items())}
     return rep
